@@ -72,7 +72,8 @@ impl TryFrom<&Number> for usize {
             Number::BigInt(bigint) => bigint.parse::<usize>(),
             Number::Integer(int) => int.parse::<usize>(),
             Number::Byte(byte) => byte.parse::<usize>(),
-            Number::Float(float) => unreachable!("not sure how to round {float}"),
+            // a float is never a valid index: the text fails to parse as an integer, which callers report
+            Number::Float(float) => float.parse::<usize>(),
         }
     }
 }
